@@ -34,7 +34,9 @@ def gen(tier, seed):
     rng = core.seeded_rng(seed, 'c01')
     nrand = 60000 if tier == 'quick' else 600000
     for _ in range(nrand):
-        so = G.SchemaOpts(funcs=True, deprecated=rng.random() < 0.3, keystrval=True, nodefault=True, depth=3)
+        big = rng.random() < 0.03
+        so = G.SchemaOpts(funcs=True, deprecated=rng.random() < 0.3, keystrval=True, nodefault=True, depth=4 if big else 3, maxopts=20 if big else 5,
+                          simple=True, null_sub=True)
         decls = G.gen_schema(rng, so)
         nocase = rng.random() < 0.25
         to = {'nocase': nocase, 'titles': ['a', 'A', 'b', 'web', 'Web', 'two words', '', 'x=y'] if nocase else None}
@@ -46,7 +48,8 @@ def gen(tier, seed):
             if r < 0.45 and toks:
                 toks = mutate(rng, toks)
             texts.append(toks)
-        yield {'decls': [d.to_json() for d in decls], 'flags': F_NOCASE if nocase else 0, 'texts': texts, 'style': rng.choice(['plain', 'mixed'])}
+        yield {'decls': [d.to_json() for d in decls], 'flags': F_NOCASE if nocase else 0, 'texts': texts, 'style': rng.choice(['plain', 'mixed']),
+               'entry': rng.choice(['buf', 'buf', 'fp', 'file'])}
 
 
 def T(text):
@@ -109,7 +112,15 @@ def script(spec):
     lines.append('init 0 %d %d' % (sid, spec['flags']))
     lines.append('dump 0')
     for k in range(len(spec['texts'])):
-        lines.append('parse_buf 0 %s' % hx(render(spec, k)))
+        entry = spec.get('entry', 'buf')
+        text = render(spec, k)
+        if entry == 'fp' and '\0' not in text:
+            lines.append('parse_fp 0 %s' % hx(text))
+        elif entry == 'file':
+            lines.append('mkfile %s %s' % (hx('in%d.conf' % k), hx(text)))
+            lines.append('parse_file 0 %s' % hx('in%d.conf' % k))
+        else:
+            lines.append('parse_buf 0 %s' % hx(text))
         lines.append('dump 0')
     return '\n'.join(lines)
 
@@ -120,7 +131,7 @@ def judge(spec, events, death):
     if death is not None:
         v.bad('crash:%s@%s' % (death['kind'], death['where']), 'texts %r: %s' % ([render(spec, k)[:200] for k in range(len(spec['texts']))], death['text'][-500:]))
         return v
-    rs = [e for e in events if e.get('ev') == 'r' and e.get('op') == 'parse_buf']
+    rs = [e for e in events if e.get('ev') == 'r' and e.get('op') in ('parse_buf', 'parse_fp', 'parse_file')]
     ds = [e for e in events if e.get('ev') == 'dump']
     if len(rs) != len(spec['texts']) or len(ds) != len(spec['texts']) + 1:
         v.bad('harness:short-log', 'events missing')
